@@ -74,3 +74,9 @@ def _f11(prop, case, violation):
 def _f16(prop, case, violation):
     # --protonate-all vs default next to an incomplete amino-acid residue (computed from the input with the templates)
     return violation.get("sig") == "incomplete-residue-protonation"
+
+
+@predicate("F19")
+def _f19(prop, case, violation):
+    # COO-ARG exception pair whose angle partner comes from a bond list (keep-protons round trips)
+    return violation.get("sig") == "coo-arg-bond-order"
